@@ -16,6 +16,7 @@
 (*   disc        an option / variant / boolean discriminator replaced by a value    *)
 (*               outside its range: first invalid value, 2, 0x7f, 0xff              *)
 (*   len_pm      a length or count prefix +1 / -1                                   *)
+(*   len_set     a length or count prefix set to 0, 1, 2^7 whatever its true value  *)
 (*   nonmin      a natural (value or prefix) re-encoded in a longer form (2-, 3-,    *)
 (*               9-byte)                                                            *)
 (*   flip        lowest / highest bit of the first byte of a field flipped          *)
@@ -26,7 +27,7 @@
 (*               2^64-1            att_len2  the same on two prefixes at once       *)
 (*   frame_len   fuzz frame length 0, 1, exact-1, exact+1, 2^32-1                   *)
 (*   frame_tag   fuzz frame with an undefined message type                          *)
-(*   pad_bits    padding bits of a bitfield set                                     *)
+(*   pad_bits    each padding bit of a bitfield set, one at a time                  *)
 (* K bounds how many marks of each class are used (evenly spaced over the layout).  *)
 EXTENDS Schema, FiniteSetsExt
 
@@ -162,6 +163,8 @@ Mutants(ty, v, K) ==
   \cup {Case("trunc_at", Sub(b, 1, Len(b) - 1)) : x \in {1}}
   \cup UNION {{Case("disc", SetByte(b, m.p, d)) : d \in {SmallNat(m.x), 2, 127, 255} \ (0..(SmallNat(m.x) - 1))} : m \in SeqSet(discs)}
   \cup UNION {{Case("len_pm", Splice(b, m.p, m.n, EncLen(n))) : n \in {SmallNat(m.x) + 1, SmallNat(m.x) - 1} \ {-1}} : m \in SeqSet(lens)}
+  \cup UNION {{Case("len_set", Splice(b, m.p, m.n, EncLen(n))) : n \in {0, 1, 128} \ {SmallNat(m.x)}} : m \in SeqSet(Pick(OfClass(ms, {"len"}), 4 * K))}
+  \cup UNION {{Case("len_set", Splice(b, m.p, 2, LE(n, 2))) : n \in {0, 1, 128} \ {SmallNat(m.x)}} : m \in SeqSet(cnt16)}
   \cup UNION {{Case("nonmin", Splice(b, m.p, m.n, f)) : f \in NonMinForms(m.x)} : m \in SeqSet(nats)}
   \cup UNION {{Case("flip", SetByte(b, m.p, FlipBit(b[m.p + 1], bit))) : bit \in {1, 128}} : m \in {m \in SeqSet(every) : m.n >= 1}}
   \cup UNION {{Case("att_len", Splice(b, m.p, m.n, EncNat(a))) : a \in AttackLens(b, m)} : m \in SeqSet(lens)}
@@ -190,6 +193,7 @@ Mutants(ty, v, K) ==
                                               \o Sub(b, e1.p + 1, e1.p + e1.n) \o Sub(b, e2[1].p + e2[1].n + 1, Len(b)))}
                        ELSE {})
               : i \in {i \in 1..(Len(ms) - 1) : ms[i].c = "len" /\ ms[i + 1].c = "ent" /\ ms[i + 1].p = ms[i].p + ms[i].n}}
-  \* bitfields: set the highest bit of the last byte (a padding bit whenever the bit count is not a multiple of 8)
-  \cup {Case("pad_bits", SetByte(b, m.p + m.n - 1, FlipBit(b[m.p + m.n], 128))) : m \in SeqSet(OfClass(ms, {"bits"}))}
+  \* bitfields: every padding bit (bit positions n .. 8*octets-1, least significant first) set, one at a time
+  \cup UNION {{Case("pad_bits", SetByte(b, m.p + (q \div 8), FlipBit(b[m.p + (q \div 8) + 1], Pow2(q % 8))))
+               : q \in SmallNat(m.x)..(8 * m.n - 1)} : m \in SeqSet(OfClass(ms, {"bits"}))}
 =============================================================================
